@@ -836,7 +836,43 @@ matrix_subscr(matrix* self, PyObject* args)
 int spmatrix_getitem_ij(spmatrix *, int_t, int_t, number *) ;
 
 static int
+matrix_ass_subscr_noalias(matrix* self, PyObject* args, PyObject* val);
+
+/* An index argument that is the matrix itself (A[A] = x, A[A,0] = x) is
+   copied first: the assignment loops read the index list while they write the
+   matrix, so an index overwritten by the assignment would be used unchecked. */
+static int
 matrix_ass_subscr(matrix* self, PyObject* args, PyObject* val)
+{
+  PyObject *copy = NULL, *targs = NULL;
+  int ret;
+
+  if (args == (PyObject *)self) {
+    if (!(copy = (PyObject *)Matrix_NewFromMatrix(self, self->id))) return -1;
+    ret = matrix_ass_subscr_noalias(self, copy, val);
+    Py_DECREF(copy);
+    return ret;
+  }
+  if (PyTuple_Check(args) && PyTuple_GET_SIZE(args) == 2 &&
+      (PyTuple_GET_ITEM(args,0) == (PyObject *)self ||
+       PyTuple_GET_ITEM(args,1) == (PyObject *)self)) {
+    if (!(copy = (PyObject *)Matrix_NewFromMatrix(self, self->id))) return -1;
+    targs = PyTuple_Pack(2,
+        PyTuple_GET_ITEM(args,0) == (PyObject *)self ? copy :
+        PyTuple_GET_ITEM(args,0),
+        PyTuple_GET_ITEM(args,1) == (PyObject *)self ? copy :
+        PyTuple_GET_ITEM(args,1));
+    Py_DECREF(copy);
+    if (!targs) return -1;
+    ret = matrix_ass_subscr_noalias(self, targs, val);
+    Py_DECREF(targs);
+    return ret;
+  }
+  return matrix_ass_subscr_noalias(self, args, val);
+}
+
+static int
+matrix_ass_subscr_noalias(matrix* self, PyObject* args, PyObject* val)
 {
   matrix *Il = NULL, *Jl = NULL;
   int_t i, j, id = self->id, decref_val = 0;
